@@ -1340,7 +1340,7 @@ def generate(repo_src: Path, groups, specs, classes):
         except Untranslatable as ex:
             tr.report["failed"][name] = str(ex)
             texts[name] = f"-- TRANSLATION FAILED for `{name}` ({tr.specs[name]['py']}): {ex}\n"
-        except (KeyError, IndexError, AttributeError, TypeError, ValueError, SyntaxError, OSError) as ex:
+        except Exception as ex:   # noqa: BLE001 - any translator defect or unreadable source
             # translator defect or unreadable source: report, never crash a check
             tr.report["failed"][name] = f"translator error {type(ex).__name__}: {ex}"
             texts[name] = f"-- TRANSLATION FAILED for `{name}`: translator error {type(ex).__name__}: {ex}\n"
